@@ -1,1 +1,5 @@
--- root of PyemvProps
+import PyemvProps.C01
+import PyemvProps.C02
+import PyemvProps.C06
+import PyemvProps.C09
+import PyemvProps.C17
